@@ -94,3 +94,85 @@ class h_mask_is_column_distance:
     def witnesses(rng):
         for _ in range(100):
             yield dict(ar=_rand_ar(rng), column=rng.randrange(0, 4), h_window=rng.randrange(0, 3))
+
+
+# ----------------------------------------------------------------------------- Pattern.group: partition + windows
+
+
+class PatternT(Ty):
+    """A Pattern of n notes sorted by offset (as its constructor leaves it); the `type` cell of note k is the tag k,
+    which the grouping code only passes through - it gives every note an identity for the partition clause."""
+
+    def __init__(self, n):
+        self.n = n
+
+    def make(self, name, ctx):
+        import z3
+        from pyvc.frames import SFrame
+        from pyvc.engine import SObj
+        from pyvc.dsl import resolve
+
+        offs = [z3.Real(f"{name}.offset[{i}]") for i in range(self.n)]
+        for a, b in zip(offs[:-1], offs[1:]):
+            ctx.assume(a <= b)
+        cols = [z3.Int(f"{name}.column[{i}]") for i in range(self.n)]
+        for c in cols:
+            ctx.assume(c >= 0)
+        return SObj(resolve(PAT), {"df": SFrame({"column": cols, "offset": offs, "type": list(range(self.n))}, list(range(self.n)))})
+
+    def concretize(self, name, model):
+        import z3
+        from fractions import Fraction
+        from pyvc.dsl import _mval
+        from reamber.algorithms.pattern.Pattern import Pattern
+        import pandas as pd
+
+        cols = [_mval(model, z3.Int(f"{name}.column[{i}]")).as_long() for i in range(self.n)]
+        offs = []
+        for i in range(self.n):
+            m = _mval(model, z3.Real(f"{name}.offset[{i}]"))
+            offs.append(float(Fraction(m.numerator_as_long(), m.denominator_as_long())))
+        p = Pattern.__new__(Pattern)
+        p.df = pd.DataFrame({"column": cols, "offset": offs, "type": list(range(self.n))})
+        return p
+
+
+def _groups_as_lists(result):
+    """[(columns, offsets, tags)] per group, for model record arrays and real numpy record arrays alike."""
+    return [(list(g["column"]), list(g["offset"]), list(g["type"])) for g in result]
+
+
+@contract("C20", PAT + ".group", args=dict(self=Choice([PatternT(n) for n in (0, 1, 2, 3)]), v_window=Real(lo=0), h_window=Choice([None, 0, 1]), avoid_jack=Choice([True, False])))
+class group_partitions_the_notes:
+    """Every note lands in exactly one group; inside a group all times lie within v of the group's first note, all
+    columns within h of it, and no column repeats when jacks are avoided."""
+
+    assumes = ["shape-bounded: 0..3 notes (offsets, columns symbolic, sorted by offset as the constructor leaves them); numpy lite model incl. the masked in-place update x[~m] |= y (A2)"]
+    max_paths = 6000
+    explore_s = 200
+
+    def ensures_partition(self, v_window, h_window, avoid_jack, result):
+        tags = [t for _, _, ts in _groups_as_lists(result) for t in ts]
+        n = len(self.df)
+        return len(tags) == n and all(any(t == k for t in tags) for k in range(n)) and all(len(ts) >= 1 for _, _, ts in _groups_as_lists(result))
+
+    def ensures_windows(self, v_window, h_window, avoid_jack, result):
+        ok = True
+        for cs, os_, ts in _groups_as_lists(result):
+            ok = ok and all(os_[0] <= o and o <= os_[0] + v_window for o in os_)
+            if h_window is not None:
+                ok = ok and all(abs(c - cs[0]) <= h_window for c in cs)
+            if avoid_jack:
+                ok = ok and all(cs[i] != cs[j] for i in range(len(cs)) for j in range(i))
+        return ok
+
+    def witnesses(rng):
+        import pandas as pd
+        from reamber.algorithms.pattern.Pattern import Pattern
+
+        for _ in range(150):
+            n = rng.randrange(0, 6)
+            offs = sorted(float(rng.choice([0, 0, 50, 100, 100, 150, 300])) for _ in range(n))
+            p = Pattern.__new__(Pattern)
+            p.df = pd.DataFrame({"column": [rng.randrange(0, 4) for _ in range(n)], "offset": offs, "type": list(range(n))})
+            yield dict(self=p, v_window=float(rng.choice([0, 50, 100])), h_window=rng.choice([None, 0, 1, 2]), avoid_jack=rng.random() < 0.5)
